@@ -47,6 +47,16 @@ def trees(tier):
     yield [("a.log", "file"), ("gone.log", "dangling", "nowhere")]
     yield [("wtmp", "file"), ("z.log", "linkfile", "wtmp")]
     yield [("a.log", "file"), ("lwtmp", "linkfile", "a.log")]
+    # entries the walk cannot follow, at every position relative to followable siblings (first/last in a sub-directory
+    # that has later siblings in its parent; two of them; at the top level)
+    yield [("a.log", "file"), ("m/a.log", "file"), ("m/b-gone.log", "dangling", "nowhere"), ("z.log", "file"), ("zdir/zz.log", "file")]
+    yield [("m/0gone.log", "dangling", "nowhere"), ("m/k.log", "file"), ("n/a.log", "file"), ("z.log", "file")]
+    yield [("m/gone", "dangling", "../nowhere"), ("m/zz.log", "file"), ("n/gone2.log", "dangling", "nowhere"), ("n/k.log", "file"), ("o/a.log", "file")]
+    yield [("0gone.log", "dangling", "nowhere"), ("a.log", "file"), ("sub/a.log", "file")]
+    yield [("m/ld", "linkdir", "../real"), ("real/a.log", "file"), ("m/gone.log", "dangling", "nowhere"), ("z.log", "file")]
+    # names starting with a dot
+    yield [(".h.log", "file"), ("a.log", "file")]
+    yield [("a.log", "file"), (".hd/a.log", "file"), ("sub/.h2.log", "file"), ("sub/b.log", "file")]
 
 
 def sort_key(rel):
@@ -77,9 +87,10 @@ def run(tier, seed, build=True):
                 elif kind == "linkdir":
                     os.symlink(e[2], p)
                     # files below the link appear under the link's name too
+                    tgt = os.path.normpath(os.path.join(os.path.dirname(rel), e[2]))
                     for e2 in ents:
-                        if e2[0].startswith(e[2] + "/"):
-                            files.append(rel + "/" + e2[0][len(e[2]) + 1:])
+                        if e2[0].startswith(tgt + "/"):
+                            files.append(rel + "/" + e2[0][len(tgt) + 1:])
                 elif kind == "dangling":
                     os.symlink(e[2], p)
             files = sorted(set(files), key=sort_key)
